@@ -260,12 +260,15 @@ def run(tier, seed):
                      ["--seed", seed, "--out", tpath], env={"TRANSPORT_DUMP_SCRIPTS": rpath}, timeout=3000)
     summ = json.loads(p.stdout.strip().splitlines()[-1])
     vlib.log("[transport] %s" % summ)
+    # vacuity guards (judged after the trace validation: a badly broken transport delivers nothing,
+    # which must surface as a violation, not as a tool error)
+    vacuity = []
     if summ["runs_with_delivery"] * 3 < summ["runs"]:
-        raise vlib.ToolError("most runs never delivered a message: driver is not exercising the transport")
-    if summ["max_delivered_one_run"] < 501:
-        raise vlib.ToolError("no run went past a key rotation")
+        vacuity.append("most runs never delivered a message: driver is not exercising the transport")
+    if summ["max_delivered_one_run"] < 1001:
+        vacuity.append("no run went past two key rotations")
     if summ["tampers"] * 20 < summ["runs"] or summ["partial_writes"] * 20 < summ["runs"]:
-        raise vlib.ToolError("too few tamper / back-pressure operations took effect")
+        vacuity.append("too few tamper / back-pressure operations took effect")
 
     # ---- 3. trace validation (the oracle)
     total, fails = validate_chunked(wd, tpath, 900000)
@@ -296,6 +299,9 @@ def run(tier, seed):
                                  "<tla2tools.jar:CommunityModules-deps.jar> tlc2.TLC -config TransportTrace.cfg "
                                  "TransportTrace.tla" % seed}, key=key):
             nviol += 1
+
+    if nviol == 0 and vacuity:
+        raise vlib.ToolError("vacuity: " + "; ".join(vacuity))
 
     # ---- 4. binding self-test on the head of the accepted trace
     st = None
